@@ -27,6 +27,10 @@ def check(model: Model, report: Report) -> None:
     report.assumptions += ["A1: stdlib re semantics; int()/float() literal domains", "query strings range over Unicode scalar values"]
     report.not_decided += ["rejection of the complement of the whole context-free language: decided for the lexical layer and for the enumerated token shapes only"]
     _lexrules.lexical_layer(model, report, "a-only", "R04")
+    from . import _pipeline
+
+    report.rule("R04.T", "tokenize() scans exactly the text it is given from offset 0: nothing is stripped, normalised or rewritten before scanning (text before '$' is an error, not noise)")
+    _pipeline.check_tokenize_setup(model, report, "R04.T")
     _lexstates.check_token_tables(model, report, "R04.L7", "a-only")
     _lexstates.check_blank_positions(model, report, "R04.L9", "a-only")
     _lexstates.check_transitions(model, report, "R04.L11")
